@@ -416,6 +416,8 @@ fn post_process<R, A, M, H, K, BE: Backend>(
 
         module.glwe_pack(res, cts, log_gap_out, auto_keys, scratch_2);
     } else {
-        module.glwe_trace(res, module.log_n() - log_gap_in + 1, a, auto_keys, scratch);
+        // No repacking: keep exactly the coefficients at multiples of 2^log_gap_in (one trace level more than
+        // the pre-selection above, which may leave the odd multiples of 2^(log_gap_in-1) because packing drops them).
+        module.glwe_trace(res, module.log_n() - log_gap_in, a, auto_keys, scratch);
     }
 }
